@@ -48,9 +48,21 @@ pub fn materialise(c: &Case) -> Vec<Rec> {
         for j in 0..size {
             out.push(Rec { id: format!("blk{}", j), desc: None, seq: crate::util::Bytes(seq.clone()) });
         }
-        out.extend_from_slice(tail);
-        if tail.is_empty() {
-            out.push(Rec { id: "after_block".into(), desc: None, seq: filler.seq.clone() });
+        if mult >= 3 {
+            // the block ends the input: everything else goes in front of it (the start index stays a multiple)
+            let mut front: Vec<Rec> = tail.to_vec();
+            front.extend(out.drain(..at));
+            front.truncate(at);
+            while front.len() < at {
+                front.push(Rec { id: format!("pre{}", front.len()), desc: None, seq: filler.seq.clone() });
+            }
+            front.extend(out);
+            out = front;
+        } else {
+            out.extend_from_slice(tail);
+            if tail.is_empty() {
+                out.push(Rec { id: "after_block".into(), desc: None, seq: filler.seq.clone() });
+            }
         }
         recs = out;
     }
@@ -240,6 +252,7 @@ pub fn check_case(c0: &Case) -> Verdict {
     let c = &Case { recs: materialise(c0), align: None, block: None, ..c0.clone() };
     if let Some((kind, size, _)) = c0.block {
         v.class(format!("block-of-{}-{}-records", size, ["empty", "shorter-than-scale", "all-N", "one-base"][kind as usize % 4]));
+        v.class_if(c0.block.map(|b| b.2 >= 3).unwrap_or(false), "block-ends-the-input");
     }
     v.class_if(c0.align.is_some(), "record-start-on-a-block-boundary");
     let cmd = &c.cmd;
@@ -378,7 +391,7 @@ impl Leg for Blocks {
     const NAME: &'static str = "blocks-and-boundaries";
     fn strategy(tier: Tier) -> BoxedStrategy<Case> {
         let sizes = vec![64usize, 100, 128, 255, 256, 257, 500, 512, 999, 1000, 1001, 1024, 2000, 2048, 4096];
-        (any::<bool>(), prop_oneof![1 => case_strategy(tier, true), 2 => case_strategy(tier, false)], 0u8..4, prop::sample::select(sizes), 0u8..3, gen::align_strategy(2 << 20))
+        (any::<bool>(), prop_oneof![1 => case_strategy(tier, true), 2 => case_strategy(tier, false)], 0u8..4, prop::sample::select(sizes), 0u8..6, gen::align_strategy(2 << 20))
             .prop_map(|(blk, mut c, kind, size, mult, align)| {
                 c.cont = Container::plain_fasta();
                 if c.recs.iter().any(|r| r.seq.0.iter().any(|&b| b >= 0x80)) {
